@@ -31,3 +31,175 @@ Proof.
   pose proof (parse_make_unsigned d t p) as H1. rewrite H, parse_make_unsigned in H1.
   inversion H1. repeat split; reflexivity.
 Qed.
+
+(* ---- PublicKey framing --------------------------------------------------------- *)
+Lemma pb_fields_marshal_pubkey : forall kt d, kt < 2 ^ 64 -> nlen d < 2 ^ 64 ->
+  pb_fields (marshal_pubkey kt d) = Some [(1, WVarint kt); (2, WLen d)].
+Proof.
+  intros kt d Hk Hd. unfold marshal_pubkey.
+  rewrite pb_fields_varint_field by (try exact Hk; lia).
+  rewrite <- (app_nil_r (put_len_field 2 d)).
+  rewrite pb_fields_len_field by (try exact Hd; lia).
+  rewrite pb_fields_nil. reflexivity.
+Qed.
+
+Lemma enum32_small : forall kt, kt < 2 ^ 32 -> enum32 kt = kt.
+Proof. intros kt H. unfold enum32. apply N.mod_small. exact H. Qed.
+
+Lemma pubkey_proto_roundtrip_l : forall kt d, kt < 2 ^ 32 -> nlen d < 2 ^ 64 ->
+  parse_pubkey (marshal_pubkey kt d) = Some (kt, d).
+Proof.
+  intros kt d Hk Hd. unfold parse_pubkey.
+  assert (Hk64 : kt < 2 ^ 64).
+  { eapply N.lt_trans; [exact Hk|]. vm_compute. reflexivity. }
+  rewrite pb_fields_marshal_pubkey by assumption.
+  cbn [merge_pubkey last_varint last_bytes fst snd N.eqb Pos.eqb].
+  rewrite enum32_small by exact Hk. reflexivity.
+Qed.
+
+Lemma marshal_pubkey_injective_l : forall kt d kt' d',
+  kt < 2 ^ 32 -> kt' < 2 ^ 32 -> nlen d < 2 ^ 64 -> nlen d' < 2 ^ 64 ->
+  marshal_pubkey kt d = marshal_pubkey kt' d' -> kt = kt' /\ d = d'.
+Proof.
+  intros kt d kt' d' H1 H2 H3 H4 H.
+  pose proof (pubkey_proto_roundtrip_l kt d H1 H3) as R. rewrite H in R.
+  rewrite pubkey_proto_roundtrip_l in R by assumption. inversion R. split; reflexivity.
+Qed.
+
+Lemma marshal_pubkey_bytes_ok : forall kt d, bytes_ok d -> bytes_ok (marshal_pubkey kt d).
+Proof.
+  intros kt d H. unfold marshal_pubkey, put_varint_field, put_len_field, tag.
+  unfold put_field. repeat (apply Forall_app; split); try apply encode_bytes_ok. exact H.
+Qed.
+
+(* ---- multihash ------------------------------------------------------------------- *)
+Lemma mh_wrap_length : forall code dg, 2 <= nlen (mh_wrap code dg).
+Proof.
+  intros code dg. unfold mh_wrap, put_field, nlen. rewrite !app_length.
+  pose proof (encode_length_pos code). pose proof (encode_length_pos (N.of_nat (length dg))). lia.
+Qed.
+
+Lemma mh_roundtrip_l : forall code dg, code < 2 ^ 63 -> nlen dg <= 2 ^ 31 - 1 ->
+  mh_decode (mh_wrap code dg) = Some (code, dg).
+Proof.
+  intros code dg Hc Hd. unfold mh_decode.
+  pose proof (mh_wrap_length code dg) as HL.
+  assert (E : (nlen (mh_wrap code dg) <? 2) = false) by (apply N.ltb_ge; exact HL). rewrite E.
+  unfold mh_wrap, put_field. rewrite decode_mf_encode by exact Hc.
+  assert (Hd63 : nlen dg < 2 ^ 63).
+  { eapply N.le_lt_trans; [exact Hd|]. vm_compute. reflexivity. }
+  rewrite decode_mf_encode by exact Hd63.
+  apply N.leb_le in Hd. rewrite Hd, N.eqb_refl. reflexivity.
+Qed.
+
+Lemma mh_wrap_bytes_ok : forall code dg, bytes_ok dg -> bytes_ok (mh_wrap code dg).
+Proof.
+  intros code dg H. unfold mh_wrap. apply Forall_app. split; [apply encode_bytes_ok|].
+  apply put_field_bytes_ok, H.
+Qed.
+
+(* ---- peer IDs ---------------------------------------------------------------------- *)
+Definition digest_ok (dg : bytes) : Prop := length dg = 32%nat /\ bytes_ok dg.
+
+Lemma id_of_key_inline : forall mx m dg, nlen m <= mx ->
+  id_of_key mx m dg = 0 :: put_field m.
+Proof.
+  intros mx m dg H. unfold id_of_key. apply N.leb_le in H. rewrite H.
+  unfold mh_wrap, MH_IDENTITY. rewrite encode_small by reflexivity. reflexivity.
+Qed.
+
+Lemma id_of_key_hashed : forall mx m dg, mx < nlen m -> length dg = 32%nat ->
+  id_of_key mx m dg = 18 :: 32 :: dg.
+Proof.
+  intros mx m dg H Hd. unfold id_of_key. apply N.leb_gt in H. rewrite H.
+  unfold mh_wrap, MH_SHA2_256, put_field, nlen. rewrite Hd.
+  rewrite (encode_small 18) by reflexivity.
+  change (N.of_nat 32) with 32. rewrite (encode_small 32) by reflexivity. reflexivity.
+Qed.
+
+Lemma id_of_key_valid : forall mx m dg, nlen m <= 2 ^ 31 - 1 -> length dg = 32%nat ->
+  exists c d, mh_decode (id_of_key mx m dg) = Some (c, d).
+Proof.
+  intros mx m dg Hm Hd. unfold id_of_key. destruct (nlen m <=? mx).
+  - exists MH_IDENTITY, m. apply mh_roundtrip_l; [reflexivity|exact Hm].
+  - exists MH_SHA2_256, dg. apply mh_roundtrip_l; [reflexivity|]. unfold nlen. rewrite Hd. vm_compute. discriminate.
+Qed.
+
+Lemma id_of_key_bytes_ok : forall mx m dg, bytes_ok m -> bytes_ok dg -> bytes_ok (id_of_key mx m dg).
+Proof.
+  intros mx m dg H1 H2. unfold id_of_key. destruct (nlen m <=? mx); apply mh_wrap_bytes_ok; assumption.
+Qed.
+
+(* ExtractPublicKey recovers the key iff the identity form was used *)
+Lemma id_embeds_key_l : forall mx m dg, nlen m <= 2 ^ 31 - 1 -> length dg = 32%nat ->
+  extract_key (id_of_key mx m dg) = if nlen m <=? mx then ExKey m else ExNoKey.
+Proof.
+  intros mx m dg Hm Hd. unfold extract_key, id_of_key. destruct (nlen m <=? mx).
+  - rewrite mh_roundtrip_l by (try exact Hm; reflexivity). reflexivity.
+  - rewrite mh_roundtrip_l; [reflexivity|reflexivity|]. unfold nlen. rewrite Hd. vm_compute. discriminate.
+Qed.
+
+(* ---- text forms ---------------------------------------------------------------------- *)
+Lemma starts_with_cons_ne : forall c p x s, x <> c -> starts_with (c :: p) (x :: s) = false.
+Proof.
+  intros c p x s H. unfold starts_with. cbn [length firstn bytes_eqb].
+  apply N.eqb_neq in H. rewrite N.eqb_sym, H. reflexivity.
+Qed.
+
+Lemma peer_decode_b58_l : forall mx m dg,
+  bytes_ok m -> digest_ok dg -> nlen m <= 2 ^ 31 - 1 ->
+  peer_decode (id_b58 (id_of_key mx m dg)) = DecId (id_of_key mx m dg).
+Proof.
+  intros mx m dg Hm [Hd Hdok] Hlen.
+  pose proof (id_of_key_valid mx m dg Hlen Hd) as (c & d & Hv).
+  pose proof (id_of_key_bytes_ok mx m dg Hm Hdok) as Hok.
+  unfold peer_decode, id_b58.
+  assert (Hpre : starts_with [81; 109] (b58_encode (id_of_key mx m dg))
+                 || starts_with [49] (b58_encode (id_of_key mx m dg)) = true).
+  { destruct (N.le_gt_cases (nlen m) mx) as [Hi|Hh].
+    - rewrite id_of_key_inline by exact Hi.
+      destruct (b58_leading_zero (put_field m)) as [t Ht]. rewrite Ht.
+      apply orb_true_iff. right. unfold starts_with. cbn. reflexivity.
+    - rewrite id_of_key_hashed by assumption.
+      destruct (b58_sha256_Qm dg Hdok Hd) as (t & Ht & _). rewrite Ht.
+      unfold starts_with. cbn. reflexivity. }
+  rewrite Hpre.
+  rewrite b58_roundtrip; [rewrite Hv; reflexivity|exact Hok|].
+  intros E. rewrite E in Hv. discriminate.
+Qed.
+
+Lemma b32_encode_nonempty : forall bs, bs <> [] -> b32_encode bs <> [].
+Proof.
+  intros bs H E. apply (f_equal (@length N)) in E. unfold b32_encode in E. cbv zeta in E.
+  rewrite map_length, fixed_length in E by lia. destruct bs as [|b bs]; [congruence|].
+  cbn [length] in E.
+  pose proof (Nat.div_mod (8 * S (length bs) + 4) 5). pose proof (Nat.mod_upper_bound (8 * S (length bs) + 4) 5).
+  cbn [length] in *. lia.
+Qed.
+
+Lemma peer_decode_cid_l : forall mx m dg,
+  bytes_ok m -> digest_ok dg -> nlen m <= 2 ^ 31 - 1 ->
+  peer_decode (id_cid_text (id_of_key mx m dg)) = DecId (id_of_key mx m dg).
+Proof.
+  intros mx m dg Hm [Hd Hdok] Hlen.
+  pose proof (id_of_key_valid mx m dg Hlen Hd) as (c & d & Hv).
+  pose proof (id_of_key_bytes_ok mx m dg Hm Hdok) as Hok.
+  set (id := id_of_key mx m dg) in *.
+  unfold peer_decode, id_cid_text, MB_BASE32.
+  rewrite starts_with_cons_ne by discriminate. rewrite starts_with_cons_ne by discriminate.
+  cbn [orb].
+  assert (Hcb : cid_bytes id = 1 :: 114 :: id).
+  { unfold cid_bytes, CID_V1, LIBP2P_KEY. rewrite (encode_small 1), (encode_small 114) by reflexivity. reflexivity. }
+  assert (Hne : b32_encode (cid_bytes id) <> []) by (apply b32_encode_nonempty; rewrite Hcb; discriminate).
+  assert (Hl : (nlen (98 :: b32_encode (cid_bytes id)) <? 2) = false).
+  { apply N.ltb_ge. unfold nlen. cbn [length]. destruct (b32_encode (cid_bytes id)); [congruence|cbn [length]; lia]. }
+  rewrite Hl. rewrite N.eqb_refl.
+  rewrite b32_roundtrip.
+  - rewrite Hcb. unfold id_of_cid_bytes.
+    change (1 :: 114 :: id) with (encode 1 ++ (encode 114 ++ id)).
+    rewrite (decode_mf_encode 1) by reflexivity.
+    unfold CID_V1. rewrite N.eqb_refl.
+    rewrite (decode_mf_encode 114) by reflexivity.
+    rewrite Hv. unfold LIBP2P_KEY. rewrite N.eqb_refl. reflexivity.
+  - rewrite Hcb. constructor; [unfold byte_ok; lia|]. constructor; [unfold byte_ok; lia|exact Hok].
+Qed.
